@@ -159,6 +159,14 @@ def _tree_job(args):
             # one third of the projects keep external libraries in the graph as well (both scans): the internal part must behave the same
             keep_ext = it % 3 == 1
             extkw = {"exclude_external_libraries": False} if keep_ext else {}
+            if keep_ext:
+                # ... and two thirds of those with an external exclusion option of either kind as well (a pattern no external
+                # matches): how file patterns are read does not depend on which other options are given
+                r_ext = rng.random()
+                if r_ext < 0.35:
+                    extkw["external_exclusions"] = ("zzzzNEVERzzzz*",)
+                elif r_ext < 0.7:
+                    extkw["regex_external_exclusions"] = ("zzzzNEVERzzzz.*",)
             unf = scan.real_scan(base, root, mp, exclusions=("zzzzNEVERzzzz",), **extkw)
             if keep_ext and unf[0] == "OK":
                 mpd = scan.dotted(mp)
